@@ -379,6 +379,6 @@ func c08Worker(sh *explore.Shard) {
 
 func init() {
 	Registry["C08"] = &Check{Level: "model_checking", Worker: c08Worker, QuickBudget: 60 * time.Second, ThoroughBudget: 10 * time.Minute,
-		Rule: "(1) a repository with every root kind (branches, lightweight tags of commit/tree/blob, annotated tags and tag chains of commit/tree/blob, objects reachable only through tags, equal maxima): every single root spec and every pair out of 9 references and 12 ROOT spellings (full id, short name, X^{tree}, X:, X:dir, X^{}, ~n) x all listing orders of trees, tags and commits x 3 name styles; (2) every tree DAG of the C04 family x all tree orders. Each cited id must be in the oracle's witness set (reachable, right kind, attains the reported maximum); each description must resolve, by the model's rev-parse (validated against real git in the conformance pass), to exactly the cited id; none cited with names=none, no description with names=hash. non-trivial = scenario with more than one listing order",
+		Rule:        "(1) a repository with every root kind (branches, lightweight tags of commit/tree/blob, annotated tags and tag chains of commit/tree/blob, objects reachable only through tags, equal maxima): every single root spec and every pair out of 9 references and 12 ROOT spellings (full id, short name, X^{tree}, X:, X:dir, X^{}, ~n) x all listing orders of trees, tags and commits x 3 name styles; (2) every tree DAG of the C04 family x all tree orders. Each cited id must be in the oracle's witness set (reachable, right kind, attains the reported maximum); each description must resolve, by the model's rev-parse (validated against real git in the conformance pass), to exactly the cited id; none cited with names=none, no description with names=hash. non-trivial = scenario with more than one listing order",
 		Assumptions: []string{"descriptions are judged in-process by modelgit's rev-parse (subset of revision syntax; anything outside it is counted as unknown, never as a verdict) and by real git at CLI level"}}
 }
